@@ -219,8 +219,10 @@ def gen_slice(rng):
         return Pat(f"[{a.src}, {c.src}]", lambda v, b, a=a, c=c: len(v) == 2 and a.ev(v[0], b) and c.ev(v[1], b),
                    top="slice")
     if form == "headrest":
-        return Pat(f"[{a.src}, rest @ ..]", lambda v, b, a=a: len(v) >= 1 and a.ev(v[0], b), top="slice",
-                   doc=f"[{a.src}, rest @ ..]")
+        # binding names must be unique within one matching! invocation
+        name = f"rest{rng.randrange(10**6)}"
+        return Pat(f"[{a.src}, {name} @ ..]", lambda v, b, a=a: len(v) >= 1 and a.ev(v[0], b), top="slice",
+                   doc=f"[{a.src}, {name} @ ..]")
     return Pat("[_, _, ..]", lambda v, b: len(v) >= 2, top="slice")
 
 
